@@ -21,6 +21,7 @@ import CijModel.Ops.C08
 import CijModel.Ops.C09
 import CijModel.Ops.C18
 import CijModel.Ops.C14
+import CijModel.Ops.C13
 open Lean Cij.Wire
 
 def handlers : List Handler := [
@@ -41,7 +42,8 @@ def handlers : List Handler := [
   Cij.Ops.C08.handle,
   Cij.Ops.C09.handle,
   Cij.Ops.C18.handle,
-  Cij.Ops.C14.handle
+  Cij.Ops.C14.handle,
+  Cij.Ops.C13.handle
 ]
 
 def dispatch (line : String) : Json :=
